@@ -110,16 +110,31 @@ def collectSegment (gt : α → α → Bool) (sel : List (Entry α) → List (En
     (docs : List (Entry α)) : List (Entry α) :=
   intoVec sel (pushAll gt sel (Computer.new N) docs)
 
-/-- mirrors: sort_key_top_collector.rs::merge_top_k with `doc_range = O .. O+K` -/
-def mergeTopK (gt : α → α → Bool) (sel : List (Entry α) → List (Entry α)) (K O : Nat)
-    (fruits : List (List (Entry α))) : List (Entry α) :=
+/-- mirrors: src/collector/sort_key_top_collector.rs::merge_top_k with `doc_range = O .. O+K` (as
+fixed by "merge_top_k: sort the collected fruits"): all per-segment fruits are collected, sorted
+(stable `sort_by`) by `(comparator desc, address asc)`, then `skip(O).take(K)`. The sort is
+modelled by `isort`: on entries with distinct addresses the order is strict, so every correct
+sort returns the same list. -/
+def mergeTopK (gt : α → α → Bool) (K O : Nat) (fruits : List (List (Entry α))) : List (Entry α) :=
   if K = 0 then []
-  else (intoSortedVec gt sel (pushAll gt sel (Computer.new (O + K)) fruits.flatten)).drop O
+  else ((isort (le gt) fruits.flatten).drop O).take K
 
 /-- mirrors: Searcher::search_with_executor with a `TopBySortKeyCollector` (generic sort key) -/
 def search (gt : α → α → Bool) (sel : List (Entry α) → List (Entry α)) (K O : Nat)
     (segments : List (List (Entry α))) : List (Entry α) :=
-  mergeTopK gt sel K O (segments.map (collectSegment gt sel (O + K)))
+  mergeTopK gt K O (segments.map (collectSegment gt sel (O + K)))
+
+/-- `merge_top_k` as it was coded BEFORE that fix (the unsorted fruits pushed into a
+`TopNComputer`); kept only to state the counterexample that motivated the fix
+(`C06_merge_unsorted_counterexample`, finding `C06:merge-ties-unsorted-fruits`, fixed). -/
+def mergeTopKPushed (gt : α → α → Bool) (sel : List (Entry α) → List (Entry α)) (K O : Nat)
+    (fruits : List (List (Entry α))) : List (Entry α) :=
+  if K = 0 then []
+  else (intoSortedVec gt sel (pushAll gt sel (Computer.new (O + K)) fruits.flatten)).drop O
+
+def searchPushed (gt : α → α → Bool) (sel : List (Entry α) → List (Entry α)) (K O : Nat)
+    (segments : List (List (Entry α))) : List (Entry α) :=
+  mergeTopKPushed gt sel K O (segments.map (collectSegment gt sel (O + K)))
 
 /-! ## `TopNHeap` (collection by score) and the pruning contract -/
 
